@@ -55,7 +55,7 @@ thread_local int tl_nopreempt = 0;
 thread_local uint64_t tl_edges = 0;
 // Every thread starts with a generous default edge budget (a legitimate run thread executes at most ~1e9 edges):
 // an endless loop in instrumented code ends the run deterministically instead of spinning until a wall-clock timeout.
-constexpr uint64_t DEFAULT_EDGE_BUDGET = 12000000000ull;
+constexpr uint64_t DEFAULT_EDGE_BUDGET = 4000000000ull;
 thread_local uint64_t tl_budget = DEFAULT_EDGE_BUDGET;
 
 inline uint64_t rnd() {
